@@ -177,6 +177,19 @@ CHECKS += [
       note="ParticleArray operations assumed (C06); the set lemma 'every face/edge/corner image exactly once' is "
            "mathematics and only pre-screened; GPU/MPI paths not examined; replay of violations builds the extension "
            "from the working tree (about 1 min)"),
+ dict(id='C17',
+      text="Partial, on the extracted Cython: LinkedListNNPS._refresh leaves every head/next entry UINT_MAX (quantified "
+           "loop invariants, any number of cells/particles); one _bin step is a push-front of particle i on the list of "
+           "its own cell with head/next otherwise unchanged and the loop runs over all given indices; "
+           "get_spatially_ordered_indices visits cells 0..n_cells-1, starts at head[c], appends the current node and "
+           "follows next[] to UINT_MAX; the octree / z-order / stratified-SFC versions copy exactly the first "
+           "num_particles pids of the REQUESTED array; spatially_order_particles passes the same index list and each "
+           "property's own stride to c_align_array of every property and re-aligns the array afterwards. One defect "
+           "repaired (fix: 994cb80, ghosts interleaved with real particles).",
+      note="glue lemma 'push-front lists built from empty lists are a partition, so the walk yields a permutation' and "
+           "std::sort permuting the pid arrays are mathematics/assumed, not machine-checked; cyarray c_align_array and "
+           "ParticleArray.align_particles are assumed (C06); 'queries after the following update are exact' is C01's "
+           "subject; replay of violations builds the extensions from the working tree (about 40 s)"),
 ]
 
 NOT_APPLICABLE = [
@@ -186,7 +199,7 @@ NOT_APPLICABLE = [
 ]
 # properties not yet under a registered check are listed as not applicable
 # "pending" until their check lands, so the manifest is valid at all times
-PENDING = ['C01','C17']
+PENDING = ['C01']
 for p in PENDING:
     if p not in [c['id'] for c in CHECKS]:
         NOT_APPLICABLE.append(dict(property_id=p, reason="check not registered yet in this commit (work in progress, see DESIGN.md section 3 for the planned contracts)"))
